@@ -384,6 +384,10 @@ def _check_factory(r, mode):
         dts = [np.dtype(d) for d in r['dts']]
         arrs = [np.arange(1, n + 1, dtype=np.float64).reshape(shape) + t for t in range(4)]
         jarrs = [jnp.asarray(a, dtype=d) for a, d in zip(arrs, dts)]
+        weak_c = [t for t in range(4) if dts[t] == np.dtype('float32') and (r['seed'] + t) % 3 == 0 and not r['as_struct']]
+        for t in weak_c:
+            arrs[t] = np.full(shape, float(t + 1))
+            jarrs[t] = jnp.full(shape, float(t + 1))  # weakly typed float32
         if w == 'from_iquv':
             used = {'I': [0], 'QU': [1, 2], 'IQU': [0, 1, 2], 'IQUV': [0, 1, 2, 3]}[kind]
             res = must_not_raise(w, cls.from_iquv, *jarrs)
@@ -402,8 +406,8 @@ def _check_factory(r, mode):
                 if r['seed'] % 2:
                     pairs.reverse()
                 res = must_not_raise(w, lambda: StokesPyTree.from_stokes(**dict(pairs)))
-        want_dt = np.result_type(*[jnp.asarray(0, dtype=dts[t]).dtype for t in used])
-        want_dt = np.dtype(jnp.result_type(*[dts[t] for t in used]))
+        # (JAX promotion lattice, evaluated on the arrays themselves so that weakly typed components count as weak)
+        want_dt = np.dtype(jnp.result_type(*[jarrs[t] for t in used]))
         if type(res) is not cls:
             raise Violation(f'factory-type:{w}', f'{type(res).__name__} instead of {cls.__name__}')
         ls = jax.tree.leaves(res)
@@ -414,6 +418,10 @@ def _check_factory(r, mode):
                 raise Violation(f'factory-promotion:{w}', f'component {c}: dtype {l.dtype}, expected {want_dt} (inputs {[str(dts[u]) for u in used]})')
             if not (w != 'from_iquv' and r['as_struct']) and not np.array_equal(np.asarray(l, dtype=np.float64), arrs[t]):
                 raise Violation(f'factory-value:{w}', f'component {c} does not hold the {c} input')
+            if not (w != 'from_iquv' and r['as_struct']) and want_dt.kind == 'f' and want_dt.itemsize >= 4:
+                after = np.dtype((l * jnp.ones((), dtype=jnp.float16)).dtype)
+                if after != want_dt:
+                    raise Violation(f'factory-weak-component:{w}', f'component {c} is weakly typed after promotion (times float16 -> {after}, expected {want_dt})')
         if len({str(dts[t]) for t in used}) > 1:
             classes.append('mixed_dtypes')
             return {'nontrivial': True, 'classes': classes}
@@ -509,8 +517,20 @@ def _check_helper(r, mode):
                     raise Violation(name + '-independence', 'two leaves received identical draws')
         return {'nontrivial': False, 'classes': classes}
     if w == 'as_promoted_dtype':
+        if not r['struct_leaves']:
+            # some leaves weakly typed (as produced by jnp.full / jnp.asarray of python scalars): a cast leaf must
+            # behave like every other leaf of the promoted dtype afterwards
+            weak = [i for i, (sh, dt) in enumerate(specs) if dt == np.dtype('float32') and (r['seed'] + i) % 2 == 0]
+            items = [jnp.asarray(a, dtype=dt) for a, (_, dt) in zip(xs, specs)]
+            for i in weak:
+                items[i] = jnp.full(specs[i][0], float(xs[i].reshape(-1)[0]) if xs[i].size else 0.0)
+                xs[i] = np.full(specs[i][0], float(xs[i].reshape(-1)[0]) if xs[i].size else 0.0)
+            jx = _tree(r['layout'], items)
+            src = jx
+            if weak:
+                classes.append('weak_typed_leaves')
         res = must_not_raise(w, ft.as_promoted_dtype, src)
-        want = np.dtype(jnp.result_type(*[dt for _, dt in flat_specs]))
+        want = np.dtype(jnp.result_type(*jax.tree.leaves(src)))
         if jax.tree.structure(res) != order:
             raise Violation(w + '-treedef', f'{jax.tree.structure(res)}')
         for l, (sh, dt), xa in zip(jax.tree.leaves(res), flat_specs, _leaves(jx)):
@@ -520,6 +540,10 @@ def _check_helper(r, mode):
                 raise Violation(w + '-leaf-kind', f'{type(l).__name__}')
             if not r['struct_leaves'] and not np.array_equal(np.asarray(l), xa.astype(want)):
                 raise Violation(w + '-value', 'values changed by the cast')
+            if not r['struct_leaves'] and want.kind == 'f' and want.itemsize >= 4:
+                after = (l * jnp.ones((), dtype=jnp.float16)).dtype
+                if np.dtype(after) != want:
+                    raise Violation(w + '-weak-leaf', f'a leaf of the result is still weakly typed: times a float16 scalar it becomes {after}, the other leaves stay {want}')
         mixed = len({dt for _, dt in flat_specs}) > 1
         return {'nontrivial': mixed, 'classes': classes + (['mixed_dtypes'] if mixed else [])}
     if w == 'as_structure':
